@@ -549,6 +549,38 @@ impl World {
                 let sel = ctx.get(gpr) as u16;
                 self.cpu.load_data_seg(sreg, sel);
             }
+            Kind::MovSregToMem { sreg, addr } => {
+                if !readable(addr, 2) {
+                    return false; // let it fault natively
+                }
+                let v = self.cpu.sel[sreg as usize];
+                self.cpu.trace.push(Ev::ReadSreg { sreg, val: v });
+                (addr as *mut u16).write_unaligned(v);
+            }
+            Kind::MovMemToSreg { sreg, addr } => {
+                if !readable(addr, 2) {
+                    return false;
+                }
+                let sel = (addr as *const u16).read_unaligned();
+                self.cpu.load_data_seg(sreg, sel);
+            }
+            Kind::PushSreg { sreg, opsize } => {
+                let v = self.cpu.sel[sreg as usize];
+                self.cpu.trace.push(Ev::ReadSreg { sreg, val: v });
+                let sp = ctx.rsp() - opsize as u64;
+                if opsize == 2 {
+                    (sp as *mut u16).write_unaligned(v);
+                } else {
+                    (sp as *mut u64).write_unaligned(v as u64);
+                }
+                ctx.set(4, sp);
+            }
+            Kind::PopSreg { sreg, opsize } => {
+                let sp = ctx.rsp();
+                let sel = (sp as *const u16).read_unaligned();
+                ctx.set(4, sp + opsize as u64);
+                self.cpu.load_data_seg(sreg, sel);
+            }
             Kind::MovFromSreg { sreg, gpr, opsize } => {
                 let v = self.cpu.sel[sreg as usize];
                 self.cpu.trace.push(Ev::ReadSreg { sreg, val: v });
